@@ -149,7 +149,7 @@ fn main() {
                 };
                 scen::graph_scenario(i, &mut srng, &o, family)
             }
-            "doc" | "doctext" | "docinv" | "histdoc" | "reload" | "rollback" | "iso" | "diff" | "patch" | "ids" | "idshi" | "migrate" | "badargs" | "isorich" | "serde" => {
+            "doc" | "doctext" | "docinv" | "histdoc" | "reload" | "rollback" | "iso" | "diff" | "patch" | "ids" | "idshi" | "migrate" | "badargs" | "isorich" | "serde" | "bulk" => {
                 if family == "isorich" {
                     amverif::proj::set_rich(true);
                 }
@@ -161,6 +161,12 @@ fn main() {
                 if family == "badargs" {
                     prof.marks = true;
                     prof.texts = true;
+                }
+                if family == "bulk" {
+                    prof.bulk = true;
+                    prof.texts = true;
+                    prof.unicode = i % 2 == 0;
+                    prof.max_objs = 12;
                 }
                 if family == "serde" {
                     prof.stringy = i % 2 == 0;
